@@ -247,14 +247,14 @@ Print Assumptions electrum_v2_std_address_concrete.
 (* Electrum v2 SegWit: the SegWit encoder never refuses, and the address decodes (witness version 0) to the
    hash160 of the compressed child key *)
 Theorem electrum_v2_segwit_address_concrete : forall sha256 ripemd160 obj pub_of,
-  hash_law ripemd160 20 ->
+  hash_law sha256 32 -> hash_law ripemd160 20 ->
   (forall x : obj, exists a, v2c_segwit_address sha256 ripemd160 obj pub_of (Ok x) = Ok a) /\
   (forall (o : res obj) a, v2c_segwit_address sha256 ripemd160 obj pub_of o = Ok a ->
      exists x, o = Ok x /\ v2c_segwit_decode a = Ok (ripemd160 (sha256 (pub_of x)))).
 Proof.
-  intros sha256 ripemd160 obj pub_of [R1 R2].
-  exact (conj (LinkElectrum.v2_segwit_address_total sha256 ripemd160 R1 R2 obj pub_of)
-              (LinkElectrum.v2_segwit_address_c sha256 ripemd160 R1 R2 obj pub_of)).
+  intros sha256 ripemd160 obj pub_of [S1 S2] [R1 R2].
+  exact (conj (LinkElectrum.v2_segwit_address_total sha256 ripemd160 S1 S2 R1 R2 obj pub_of)
+              (LinkElectrum.v2_segwit_address_c sha256 ripemd160 S1 S2 R1 R2 obj pub_of)).
 Qed.
 Print Assumptions electrum_v2_segwit_address_concrete.
 
